@@ -83,26 +83,81 @@ class Site:
     pass
 
 
-def wake_sites(fx):
+WAKE_ALL = SM + "::wake_all_streams"
+ALL = ("allstreams",)
+
+def _conds_at(body, dg, b):
     out = []
+    for x in sorted(body.dom[b]):
+        cc = D.cmp_of_switch(body, dg, x)
+        if not cc: continue
+        op, l, r, tt, ft = cc
+        if tt == ft: continue
+        if body.dominates(tt, b): out.append((op, l, r, True))
+        elif body.dominates(ft, b): out.append((op, l, r, False))
+    return out
+
+
+def subst(e, pmap, depth=0):
+    """replaces the callee's parameters by the caller's argument expressions"""
+    if not isinstance(e, tuple) or depth > 40: return e
+    if e and e[0] == "param" and e[1] in pmap: return pmap[e[1]]
+    return tuple(subst(x, pmap, depth + 1) if isinstance(x, tuple) else x for x in e)
+
+
+def wake_sites(fx):
+    """every wake decision of channel code, in the context of the accept entry point (or closure of one) that takes it: a call of wake_stream /
+    wake_all_streams directly in that function, or inside a crate-local helper it calls -- then the helper's guards and target are rewritten over the
+    caller's argument expressions and joined with the caller's own guards at the call (bound: 3 levels)."""
+    direct = {}
+    bodies = {}
+    def bd(f):
+        k = id(f)
+        if k not in bodies:
+            b = Body(f); bodies[k] = (b, D.Dag(b))
+        return bodies[k]
     for f in fx.fns:
         if f.get("impl_self") == SM: continue
-        has = any(blk["term"][0] == "Call" and (blk["term"][1].get("resolved") or blk["term"][1].get("f")) == WAKE for blk in f["blocks"])
+        has = any(blk["term"][0] == "Call" and (blk["term"][1].get("resolved") or blk["term"][1].get("f")) in (WAKE, WAKE_ALL) for blk in f["blocks"])
         if not has: continue
-        body = Body(f); dg = D.Dag(body)
+        body, dg = bd(f)
         for (b, c) in body.calls:
-            if (c.get("resolved") or c.get("f")) != WAKE: continue
+            tgt = c.get("resolved") or c.get("f")
+            if tgt not in (WAKE, WAKE_ALL): continue
             s = Site(); s.f = f; s.key = f["key"]; s.body = body; s.dg = dg; s.b = b
-            s.target = dg.expr(c["args"][1])
-            s.conds = []
-            for x in sorted(body.dom[b]):
-                cc = D.cmp_of_switch(body, dg, x)
-                if not cc: continue
-                op, l, r, tt, ft = cc
-                if tt == ft: continue
-                if body.dominates(tt, b): s.conds.append((op, l, r, True))
-                elif body.dominates(ft, b): s.conds.append((op, l, r, False))
-            out.append(s)
+            s.target = dg.expr(c["args"][1]) if tgt == WAKE else ALL
+            s.conds = _conds_at(body, dg, b)
+            s.via = None
+            direct.setdefault(f["key"], []).append(s)
+    def is_context(key):
+        return channel_of(fx, key) is not None and entry_of(key) is not None
+    callers_memo = {}
+    def callers_of(key):
+        if key not in callers_memo:
+            res = []
+            for f in fx.fns:
+                if not any(blk["term"][0] == "Call" and (blk["term"][1].get("resolved") or blk["term"][1].get("f")) == key for blk in f["blocks"]): continue
+                body, dg = bd(f)
+                for (b, c) in body.calls:
+                    if (c.get("resolved") or c.get("f")) == key: res.append((f, body, dg, b, c))
+            callers_memo[key] = res
+        return callers_memo[key]
+    out = []
+    def place(s, depth):
+        if is_context(s.key) or depth >= 3 or len(fx.by_key.get(s.key, [])) != 1 or "::{closure#" in s.key:
+            out.append(s); return
+        cs = callers_of(s.key)
+        if not cs:
+            out.append(s); return
+        for (f, body, dg, b, c) in cs:
+            pmap = {i + 1: dg.expr(a) for i, a in enumerate(c["args"])}
+            t = Site(); t.f = f; t.key = f["key"]; t.body = body; t.dg = dg; t.b = b
+            t.target = s.target if s.target == ALL else subst(s.target, pmap)
+            t.conds = _conds_at(body, dg, b) + [(op, subst(l, pmap), subst(r, pmap), pol) for (op, l, r, pol) in s.conds]
+            t.via = s.key if s.via is None else s.via
+            place(t, depth + 1)
+    for k in sorted(direct):
+        for s in direct[k]: place(s, 0)
     return out
 
 
@@ -216,22 +271,15 @@ def check_poll_protocol(ctx):
                f"`{c_.get('fname')}({show(val)[:60]})`; required: the slot is overwritten (insert / replace) with a clone of the waker passed in")
     # (b) the only path that stores nothing is `Some(registered) && registered.will_wake(waker)`
     store_blocks = {sb_ for (sb_, _) in stores}
-    ww_true = set()
-    for b in sorted(body.reachable):
-        t = body.term(b)
-        if t[0] == "Switch" and t[5] == "bool":
-            e = dg.expr(t[1]); neg = False
-            while e[0] == "un" and e[1] == "Not": e = e[2]; neg = not neg
-            if e[0] == "call" and e[1].endswith("will_wake"):
-                zero = [tg for (v, tg) in t[2] if v == 0]
-                if zero: ww_true.add((b, t[3]))       # edge taken when will_wake(..) is true (the switch is on the un-negated value)
-    seen = {0}; st_ = [0]
-    while st_:
-        x = st_.pop()
-        if x in store_blocks: continue
-        for s_ in body.succ(x):
-            if (x, s_) in ww_true or s_ in seen: continue
-            seen.add(s_); st_.append(s_)
+    n_ww = [0]
+    def _cut(facts):
+        for (e, truth) in facts:
+            if isinstance(e, tuple) and e and e[0] == "call" and e[1].endswith("will_wake"):
+                n_ww[0] += 1
+                if truth: return True     # the edge on which `registered.will_wake(waker)` answered true (directly, or read through a flag)
+        return False
+    seen = util.flag_paths(body, dg, 0, store_blocks, _cut)
+    ww_true = n_ww[0]
     escapes = [r for r in body.returns if r in seen]
     ctx.ob("R04.2", f"{k}|re-registers-unless-same-waker", bool(ww_true) and not escapes, f"{body.f['file']}:{body.f['line']}",
            "every path that returns without storing the waker lies on the true edge of `registered.will_wake(waker)`" if not escapes else
@@ -260,7 +308,7 @@ def check_wake_sites(ctx):
     fx = ctx.fx
     # ------------------------------------------------------------------ wake sites
     sites = wake_sites(fx)
-    ctx.ob("R04.3", "wake-sites|count", len(sites) >= 30, "", f"{len(sites)} wake_stream call sites in channel code (32 confirmed by reading)", nontrivial=False)
+    ctx.ob("R04.3", "wake-sites|count", len(sites) >= 15, "", f"{len(sites)} wake decisions in channel code (32 on the tree this was written against; every accept entry point must reach one: R04.6)", nontrivial=False)
     per_fn = {}
     for s in sites:
         ch = channel_of(fx, s.key); en = entry_of(s.key)
@@ -328,7 +376,7 @@ def check_wake_sites(ctx):
             if _unimplemented(fx, key): continue
             n6 += 1
             ctx.ob("R04.6", f"{key}|reaches-a-wake", wake_reach(key), f"{f['file']}:{f['line']}", "this accept entry point (or the send it delegates to) contains a wake decision")
-    ctx.floor("R04.6", 30); ctx.floor("R04.5", 28); ctx.floor("R04.3", 30)
+    ctx.floor("R04.6", 30); ctx.floor("R04.5", 28); ctx.floor("R04.3", 16)
 
 
 def _short(s):
@@ -384,7 +432,7 @@ def _classify(ctx, fx, s, tag):
     """returns (class, reason, description) for one wake site; emits the R04.4 obligation.  class in A, B, C, X (extra wake, no length condition), U (unclassifiable)"""
     body = s.body
     kind = KIND.get(s.ch)
-    listener = is_listener_id(s.target)
+    listener = is_listener_id(s.target) or s.target == ALL      # the sweep wakes every stream id: any guard on it is judged like a listener's own wake
     at = []
     for (op, l, r, pol) in s.conds:
         if sentinel_test(l, r): continue     # `id != u32::MAX`: end-of-list sentinel of the live-listener list
@@ -396,6 +444,9 @@ def _classify(ctx, fx, s, tag):
     if kind == "log":
         ok = listener and not at and util.in_loop(body, s.b)
         return ("A" if ok else "U", "unconditional wake of every live listener after publication" if ok else "log channel wake is not the unconditional sweep", desc)
+    if not at and s.target == ALL and not [c for c in s.conds if not sentinel_test(c[1], c[2])]:
+        _sweep_shape(ctx, fx)
+        return ("A", "unconditional wake of every stream id (wake_all_streams) after publication", desc)
     if not at:
         if listener or strip_casts(s.target)[0] == "const":
             ctx.ob("R04.4", f"{tag}|target-in-bounds", listener or (isinstance(strip_casts(s.target)[1], int) and strip_casts(s.target)[1] == 0), loc, "constant / listener target", nontrivial=False)
@@ -438,6 +489,15 @@ def _classify(ctx, fx, s, tag):
     elif not exact: why.append({"reserve": "stale-length@reservation", "publish": "stale-length@reservation", "presend": "stale-length@pre-send"}.get(src, "inexact-length"))
     if fires and not tgt0: why.append("target-may-not-exist")
     return ("C", "+".join(why), desc)
+
+
+_sweep_done = set()
+def _sweep_shape(ctx, fx):
+    """wake_all_streams really is the sweep over 0..MAX_STREAMS (shape shared with C06 R06.6)"""
+    if id(ctx) in _sweep_done: return
+    _sweep_done.add(id(ctx))
+    import props.C06 as C06
+    C06.check_sweeps(util.PrefixedCtx(ctx, "R04.5"), only=("wake_all_streams",))
 
 
 WHY = {"stale-length@reservation": "the length was sampled when the slot was reserved, not at publication: with several producers a later publication sees a length above the wake threshold although the consumer already drained and parked",
